@@ -59,6 +59,28 @@ CLAIMS = {
              'sets validated over all code points each run; int syntax restricted to (0x|0X)?hex+); pairing model of C04',
         technique='Coq proof (parser round-trip by induction over lines) + differential correspondence',
         ref='DESIGN.md §5 C19'),
+    'C02': dict(
+        text='Coq theorems c02_events (header + ANY thread map + ANY padding + ANY m complete records -> exactly m events in '
+             'order, each the decoding of its record, under the guard that the record stream does not begin with a zero byte), '
+             'c02_tables/c02_no_residue (tables = thread map, later entry wins, for EVERY previous table content), and '
+             'c02_leading_zero_refuted (the unguarded statement is false: finding F01, recorded in known_findings.txt); closed '
+             'under the global context. Hand model of parse_v2 + construct layouts tied to the code by a correspondence on '
+             'generated, damaged and every-truncation dumps.',
+        note='trusted: Coq kernel+vm_compute; Container.v (construct combinators, BytesIO.read, UTF-8 validity written out as '
+             'library oracles) validated against the code each run; from_kd_buf is the generated model of C01',
+        technique='Coq proof (encoder/parser round trip by induction) + differential correspondence', ref='DESIGN.md §5 C02'),
+    'C06': dict(
+        text='Coq theorems c06_prefix_events (for EVERY byte string, v2 or v3 or garbage, EVERY cut offset and EVERY behaviour '
+             'of the plist decoder the events of the cut dump are a prefix of those of the whole dump), c06_whole_records_only, '
+             'c06_no_fuel_exhaustion (every loop consumes input: linear number of iterations), c06_pairing_incremental / '
+             'filter / limit (the downstream pipeline never revises what it reported); closed under the global context. '
+             'Correspondence on EVERY truncation offset of generated dumps through a counting reader with a read budget; '
+             'lines-prefix and count-limit checked differentially incl. process/tid/class filters on semantic streams.',
+        note='trusted: as C02, plus the v3 part of Container.v (seek_until, Prefixed, Aligned/Select, GreedyRange). partial: '
+             'wall-clock termination of CPython observed (budget + timeout), proof is about model loop fuel; formatted-line '
+             'prefix is differential (formatter model is C14)',
+        technique='Coq proof (prefix-monotonicity of every parsing stage) + differential correspondence on all truncations',
+        ref='DESIGN.md §5 C06'),
     'C12': dict(
         text='Coq theorems c12_events/sat_meaning/logs/no_logs_in_events/no_events_in_logs: for EVERY stream and EVERY '
              'configuration the filtered listings equal `filter` of the unfiltered listing by the stated predicate (order and '
